@@ -245,7 +245,7 @@ PROPS['C06'] = dict(
     gen=lambda tier, rng: chain(gens.gen_tok(Q(tier, {'head': 3, 'path': 3, 'qual': 3, 'sub': 3}, TOK_T), ('g', 't')), gens.gen_fault(rng, Q(tier, 10000, 100000)),
                                 gens.gen_corpus(rng, Q(tier, 3000, 50000)), gens.gen_build(rng, Q(tier, 15000, 200000), 1, ('g', 't', 's', 'b', 'o')),
                                 gens.gen_qops(rng, Q(tier, 3000, 50000)), gens.gen_cs(rng, Q(tier, 3000, 50000)), gens.gen_pt(rng, 500, 2), gens.gen_comb(rng, 500),
-                                c06_odd(rng), gens.gen_types(), gens.gen_slot(('g', 't')), gens.gen_shape(rng, 500), c06_long(rng, Q(tier, 0, 60)), gens.gen_lengths()),
+                                c06_odd(rng), gens.gen_types(), gens.gen_slot(('g', 't')), gens.gen_shape(rng, 500), c06_long(rng, Q(tier, 0, 60)), gens.gen_lengths(), gens.gen_typed_punct()),
     project=c06_proj,
     rule='every case of every other stream runs under catch_unwind in a build with overflow checks and debug assertions; the observable is where PANIC occurs (and HANG: a watchdog in the harness ends a call that has not returned after 10 s); '
          'documented panics (Index of an absent key, insert_typed with an invalid KEY, Display of an invalid user type) are predicted by the model',
